@@ -63,7 +63,7 @@ pub fn run_c01(ctx: &mut Ctx) {
     let mut or = Oracle::new("C01",
         "well-formed preambles: ids 1..65535, 3 roles, any flag byte; pair lists with lengths from {0,1,2,126,127,128,129,255,256,65534,65535,65536,70000} and small random lengths, duplicate / case-variant / non-UTF-8 / empty names; \
          Params payload cut at every kind of offset (inside length prefixes, pair boundaries, 1..4-byte records, >65535-byte pairs over several records); padding 0..255 with non-zero filler; noise records (GetValues, unknown types, foreign-id and stale records) at every position; \
-         buffer sizes from longest+13 upward; chunkings: all-at-once, 1-byte, buffer-filling, every single cut (wires <= 600 B; sampled in quick), random. Expectation known by construction (independent lossy/uppercase/last-wins reference). \
+         buffer sizes from longest+13 upward; chunkings: all-at-once, 1-byte, buffer-filling, every single cut (thorough: all wires <= 400 B and every 8th up to 600 B; quick: every 8th wire <= 600 B), random. Expectation known by construction (independent lossy/uppercase/last-wins reference). \
          Non-trivial: >= 1 pair or >= 1 noise record; distinct by (wire, buffer size, chunking)");
     let mut rng = ctx.rng.fork();
     let ncases = ctx.n(260, 700);
@@ -81,7 +81,7 @@ pub fn run_c01(ctx: &mut Ctx) {
         let extra = match rng.below(4) { 0 => vec![], 1 => rng.bytes(1 + rng.clone().usize_below(30)), _ => ser_all(&[Rec::new(T_STDIN, pre.id, rng.bytes(rng.clone().usize_below(20)), vec![])]) };
         wire.extend(&extra);
         let small = wire.len() <= 600;
-        let exhaustive = small && (thorough || ci % 8 == 0);
+        let exhaustive = small && ((thorough && wire.len() <= 400) || ci % 8 == 0);
         let chs = if wire.len() > 20_000 { vec![Chunking::All, Chunking::Fill, Chunking::Random(1), Chunking::Fixed(4093)] } else { chunkings_for(&mut rng, wire.len(), exhaustive, if small { 3 } else { 1 }) };
         or.count(if big { "cases_with_pair_over_65535" } else { "cases_small" });
         or.count(&format!("noise_records={}", (built.recs.len() - 2).min(9)));
